@@ -33,7 +33,8 @@ constants/tables.)
   True/False" (flag propagation; vocabulary = the code's own boolean flags, each True/False/unknown), branch edges pruned
   by three-valued `tv_eval` under those flag values; every other test stays symbolic (both edges followed; a test on a
   local updated in the candidate loop downgrades the verdict to undecided).  No data values, no loop unrolling (states
-  are memoised per CFG node).
+  are memoised per CFG node; for a loop over a literal collection of file views additionally per element of that
+  literal, see R5).
 * R1: 6 - DEFAULT_XOR_KEYS (module-level constant table) folded and compared completely with the reference key table.
 * R2: 1, 3, 6 - needle located by role (data operand of the `xor()` feeding the resolved scanner call) as a value term,
   folded to a constant and compared with the serialisation of `Setting` computed from the *parsed* C definition
@@ -46,10 +47,21 @@ constants/tables.)
   view); key list term compared structurally with `<keys parameter> or DEFAULT_XOR_KEYS` (for the if-form: dominating
   conditions + three-valued evaluation of the guards under the named assumption "keys parameter falsy"); yielded
   tuple/dict terms compared structurally with the searched key term and the literal flag of the site kind.
+  5 - a search whose file is (a component of) the element of an enclosing loop over a *collection of file views the
+  analysed code spells out* (tuple/list literal, or a local bound once to such a literal and grown only by
+  `.append(<element>)` statements before the loop: syntax-tree query + dominance) is one site per element of that
+  collection: the loop-element term is replaced by the element term (`_subst`, device 3) before the comparisons above.
+  Any other collection -> undecided.
 * R5: 2, 5 (`_explore`: after a yield mark no search/retry target is reachable; CFG reachability for phase order;
   dominating condition for the all-keys option), 1, 3 (argument terms of the recursive call and of `make_byte_list`),
   6 (the literal `range(..)` in `make_byte_list` folded and compared with the 256-entry reference table; dependence on
-  the exclude parameter is a syntax-tree query).
+  the exclude parameter is a syntax-tree query).  Search order for sites that share one loop over a collection of views
+  ("every key on the XorEncoded view, then every key on the raw file"): position of the two elements in the literal /
+  CFG reachability between the two `append` statements, and CFG reachability from the exits of the view loop back to its
+  header (the loop is nested in another one, e.g. the key loop -> the raw file is searched under one key before the
+  XorEncoded view is searched under the next).  In `_explore` such a loop is specialised per element of the literal
+  collection (device 5: the vocabulary is the code's own literal; the iterate edge moves to any later element, loop
+  variables that are literal booleans in the element are known) - no unrolling over a size chosen by the checker.
 * R6: 1, 2, 3 - consumption of the candidate source (for loop / `next`) located by term equality; "first candidate
   wins" = no CFG path from the loop body back to the header / no second advance; returned term is a construction by the
   class parameter from `candidate[0]`, attribute stores between construction and return compared structurally with
@@ -58,6 +70,14 @@ constants/tables.)
   `raise ValueError`), structural comparison of the forwarded argument terms in from_file / from_path / from_bytes.
 * R8: imported obligations of `rules.c15.scanner_obligations` (technique documented there).
 * R9: imported obligations of `rules.c09.r1..r3` (technique documented there).
+* R10: 1, 3 - the key lists are located by role (iterable of the key loops, key argument of the retry, argument of
+  `make_byte_list`) as value terms; every in-place modification in the block iterator (mutating method call, item
+  store/delete, augmented assignment) whose receiver term is one of them is a subject.  `_freshness` classifies the
+  origin of the receiver through reaching definitions and the return expressions of resolved package callees
+  (syntax-tree classification, nothing evaluated): allocated during the call on every path (literal, comprehension,
+  `sorted`/`list`/copy/slice/operator result) -> discharged; an object that outlives the call (module-level object or an
+  element read out of one, result of a callee under a memoising decorator, mutable default argument, the caller's own
+  list) -> violated; anything else (external call, attribute, unpacking) -> undecided.
 """
 
 from __future__ import annotations
@@ -66,7 +86,7 @@ import ast
 
 from csverif import cdefs as cdefs_mod
 from csverif.astutil import (
-    assignments_to, bind_args, body_walk, const_eval, dotted, fn_calls, module_env, NotConst, params, src, statements,
+    assignments_to, bind_args, body_walk, const_eval, dotted, fn_calls, module_env, NotConst, param_defaults, params, src, statements,
     strip_cast,
 )
 from csverif.cfg import ENTRY, EXIT, RAISE
@@ -91,14 +111,18 @@ def run(ctx):
         "BeaconConfig.from_file/from_path/from_bytes): default key table, needle derived from the Setting struct "
         "definition, value-flow agreement of the XOR key and scan position (flow-sensitive value terms), search-phase "
         "order and 'a found candidate ends the search' by path-sensitive CFG exploration over the boolean locals, "
-        "first-candidate-wins (the candidate source is consumed once), exit analysis. The scanner's offset algebra "
+        "first-candidate-wins (the candidate source is consumed once), exit analysis; a key list that is re-ordered in "
+        "place is an object private to the call (R10: no memoised / module-level / caller-owned list carries the byte "
+        "frequency order of one payload into the next extraction). The scanner's offset algebra "
         "obligations of C15 are imported (R8). Decides these structural necessary conditions; does not decide that "
         "decoded settings equal the embedded ones for all payloads."
     )
     rep.not_decided = [
         "equality of extracted settings with the embedded block for all payloads/offsets/buffer sizes",
         "container handling (PE / XorEncoded) - see C09, C18",
-        "frequency ordering of the 254 left-over keys",
+        "frequency ordering of the 254 left-over keys (only that the re-ordered list is private to the call, R10)",
+        "search phases merged into one loop over a collection of file views are followed only when the collection is a "
+        "literal list/tuple (optionally grown by append() before the loop); other collections are undecided",
     ]
     rep.trusted_base = ["CPython ast", "networkx dominators", "C-definition parser (csverif.cdefs)"]
     rep.assumptions = ["iter_find_needle reports true offsets (C15 obligations, imported as R8)"]
@@ -107,6 +131,7 @@ def run(ctx):
     r4_r5(ctx)
     r6_r7(ctx)
     r8(ctx)
+    r10(ctx)
     # blocks inside XorEncoded stages are found by scanning and then re-reading the decoding file view: its position
     # algebra and nonce chaining (C09.R1-R3) are necessary conditions here as well
     from rules import c09
@@ -163,6 +188,33 @@ def _mentions(t, sub) -> bool:
     if t == sub:
         return True
     return isinstance(t, tuple) and any(_mentions(x, sub) for x in t if isinstance(x, tuple))
+
+
+def _is_term(x) -> bool:
+    return isinstance(x, tuple) and bool(x) and isinstance(x[0], str)
+
+
+def _subst(t, old, new):
+    """term t with every occurrence of the term `old` replaced by `new` (projections re-normalised)"""
+    if t == old:
+        return new
+    if not _is_term(t) or t[0] == "const":
+        return t
+    h = t[0]
+    if h == "item":
+        return _item(_subst(t[1], old, new), t[2])
+    if h == "key":
+        return _key(_subst(t[1], old, new), t[2])
+    if h == "dict":
+        return ("dict", tuple((k, _subst(x, old, new)) for k, x in t[1]))
+    if h == "phi":
+        return _phi([_subst(a, old, new) for a in t[1]])
+    if h in ("tuple", "or", "and", "not", "attr", "with"):
+        r = (h,) + tuple(_subst(x, old, new) if _is_term(x) else x for x in t[1:])
+        if h == "not" and r[1][0] == "const":  # constant folding of the negated literal
+            return _const(not r[1][2])
+        return r
+    return t
 
 
 def _understood(t) -> bool:
@@ -504,6 +556,8 @@ class _Val:
             return f"<with {s(t[1])}>"
         if h == "phi":
             return " | ".join(s(x) for x in t[1])
+        if h == "opaque":
+            return "<an expression this rule does not follow>"
         return "?"
 
 
@@ -762,12 +816,22 @@ class _Sites:
             names = list(a)
             file_t = v.term(a[names[0]], call)
             key_t = v.term(a[names[1]], call)
-            if file_t == self.fobj_t:
-                kind = "raw"
-            elif all(x[0] == "call" and v.callee_fq(v.node[x[1]]) == FQ_XORFILE and self._wraps_fobj(v.node[x[1]]) for x in _alts(file_t)):
-                kind = "xorencoded"
-            else:
-                self.unlocated.append((call, f"searched file is {v.show(file_t)}: neither the file parameter nor its XorEncoded view"))
+            # one search over a *collection of file views*: the searched file is (a component of) the element of an
+            # enclosing loop over a literal collection -> one site per element of the collection
+            views = [(None, file_t)]
+            base = file_t[1] if file_t[0] == "item" and file_t[1][0] == "elem" else file_t
+            vloop = v.node.get(base[1]) if base[0] == "elem" else None
+            if isinstance(vloop, (ast.For, ast.AsyncFor)) and any(x is vloop for x in v.fv.ancestors(call)):
+                els = self.view_elements(vloop)
+                if els is None:
+                    self.unlocated.append((call, f"searched file is {v.show(file_t)}: element of a collection of file views that is not a literal "
+                                                 "list/tuple (optionally grown by append() before the loop)"))
+                    continue
+                views = [(dict(loop=vloop, index=i, els=[x for x, _p in els], pos=pos, old=base, new=et), _subst(file_t, base, et)) for i, (et, pos) in enumerate(els)]
+            kinds = [self._kind(ft) for _vw, ft in views]
+            if not views or None in kinds:
+                bad = next((ft for (_vw, ft), k in zip(views, kinds) if k is None), file_t)
+                self.unlocated.append((call, f"searched file is {v.show(bad)}: neither the file parameter nor its XorEncoded view"))
                 continue
             inner = v.loops_over(call)
             if len(inner) != 1:
@@ -778,8 +842,72 @@ class _Sites:
             if key_t[0] == "elem":
                 outer = v.node.get(key_t[1])
             ys = [y for y in ast.walk(inner) if isinstance(y, ast.Yield)]
-            self.sites.append(dict(call=call, kind=kind, inner=inner, outer=outer, key_t=key_t, yields=ys, file_t=file_t))
+            for (vw, ft), kind in zip(views, kinds):
+                self.sites.append(dict(call=call, kind=kind, inner=inner, outer=outer, key_t=key_t, yields=ys, file_t=ft, view=vw))
         self.retries = v.calls(f.fq)
+
+    def _kind(self, file_t):
+        v = self.v
+        if file_t == self.fobj_t:
+            return "raw"
+        if all(x[0] == "call" and v.callee_fq(v.node[x[1]]) == FQ_XORFILE and self._wraps_fobj(v.node[x[1]]) for x in _alts(file_t)):
+            return "xorencoded"
+        return None
+
+    def view_elements(self, loop):
+        """Elements of the collection a loop iterates, when that collection is spelled out by the analysed code: a
+        tuple/list literal, or a local bound once to such a literal and afterwards only grown by `.append(<element>)`
+        statements that precede the loop.  -> [(element term, position)] with position ("lit", i) | ("app", cfg node),
+        or None (not such a collection)."""
+        v, cfg = self.v, self.v.cfg
+        it = strip_cast(loop.iter)
+        lit, name = (it, None) if isinstance(it, (ast.Tuple, ast.List)) else (None, it.id if isinstance(it, ast.Name) else None)
+        appends = []
+        if lit is None:
+            if name is None or name not in v.locals or name in v.params:
+                return None
+            rd = reaching_defs(self.ctx, self.f, name, loop)
+            if len(rd) != 1 or len(assignments_to(v.fn, name)) != 1 or rd[0][1] is None:
+                return None
+            dst, lit = rd[0]
+            lit = strip_cast(lit)
+            if not isinstance(lit, (ast.Tuple, ast.List)):
+                return None
+            dn, header = v.stmt_node(dst), cfg.node(loop)
+            if dn is None:
+                return None
+            # every other occurrence of the name is the loop iterable or the receiver of an append() statement
+            for n in body_walk(v.fn):
+                if not (isinstance(n, ast.Name) and n.id == name) or n is it or isinstance(n.ctx, ast.Store):
+                    continue
+                par = v.fv.parent.get(id(n))
+                call = v.fv.parent.get(id(par)) if isinstance(par, ast.Attribute) and par.attr == "append" else None
+                st = v.fv.parent.get(id(call)) if call is not None else None
+                if not (isinstance(call, ast.Call) and call.func is par and isinstance(st, ast.Expr) and len(call.args) == 1 and not call.keywords
+                        and not isinstance(call.args[0], ast.Starred) and isinstance(lit, ast.List)):
+                    return None
+                an = v.stmt_node(st)
+                if an is None or not cfg.dominates(dn, an) or cfg.reaches(header, an) or not cfg.dominates(dn, header):
+                    return None
+                appends.append((call.args[0], st, an))
+        if any(isinstance(x, ast.Starred) for x in lit.elts):
+            return None
+        at = loop if name is None else dst
+        out = [(v.term(e, at), ("lit", i)) for i, e in enumerate(lit.elts)]
+        out += [(v.term(e, st), ("app", an)) for e, st, an in appends]
+        return out or None
+
+    def may_precede(self, a, b) -> bool:
+        """can the element at position a come before the element at position b in the collection?"""
+        if a[0] == "lit":
+            return b[0] == "app" or a[1] < b[1]
+        return b[0] == "app" and a[1] != b[1] and self.v.cfg.reaches(a[1], b[1])
+
+    def reentered(self, loop) -> bool:
+        """can the loop be started again after it was left (it is nested in another loop)?"""
+        cfg = self.v.cfg
+        header, breaks = cfg.loops[id(loop)]
+        return any(cfg.reaches(x, header) for x in [cfg.edge_node(loop, "exhaust")] + list(breaks))
 
     def _wraps_fobj(self, call):
         a = self.v.args(call, method=True)
@@ -870,11 +998,35 @@ def _mutated_names(root):
     return out
 
 
-def _explore(ctx, f, v, marks, targets, recorders):
+def _view_binds(target, t, out):
+    """constant booleans bound to the names of a loop target when the loop element is the term t"""
+    if isinstance(target, ast.Name):
+        if t[0] == "const" and t[1] == "bool":
+            out[target.id] = t[2]
+    elif isinstance(target, (ast.Tuple, ast.List)) and not any(isinstance(x, ast.Starred) for x in target.elts):
+        for i, x in enumerate(target.elts):
+            _view_binds(x, _item(t, i), out)
+    return out
+
+
+def _label(x, vi):
+    """label of a mark/target: a plain string, or (view loop number, {element index: label}) for a construct inside a
+    loop over a literal collection of views (the label then depends on the element the loop is at)"""
+    if isinstance(x, tuple):
+        return x[1].get(vi[x[0]])
+    return x
+
+
+def _explore(ctx, f, v, marks, targets, recorders, vloops=()):
     """Path-sensitive exploration of f's CFG.  State: (node, values of the constant boolean locals, set of marks passed,
-    'an uninterpreted test on a recorder was passed').  `marks`: cfg node -> label added on arrival; `targets`: cfg node
-    -> name.  Branch edges that are infeasible under the known boolean locals are not followed; exceptional edges are
-    followed only if a statement that may raise can follow.  Returns {(target name, mark): 'definite'|'unknown'}."""
+    'an uninterpreted test on a recorder was passed', element index of every view loop).  `marks`: cfg node -> label
+    added on arrival; `targets`: cfg node -> name (labels see `_label`).  `vloops`: the loops over a literal collection of
+    file views [(for stmt, [element terms])]: such a loop is specialised per element of the collection the analysed code
+    spells out (the iterate edge moves on to any later element - elements may be appended conditionally -, the loop
+    variables that are constant booleans in the element are known while the loop is at it); the collection is the
+    code's own finite vocabulary, nothing is unrolled over a size chosen here.  Branch edges that are infeasible under
+    the known boolean locals are not followed; exceptional edges are followed only if a statement that may raise can
+    follow.  Returns {(target name, mark): 'definite'|'unknown'}."""
     cfg = v.cfg
     flags = _bool_flags(f.node, v)
     fnames = sorted(flags)
@@ -883,15 +1035,27 @@ def _explore(ctx, f, v, marks, targets, recorders):
         for st, val in defs:
             if cfg.has(st):
                 flag_set[cfg.node(st)] = (fnames.index(name), val.value)
+    vdesc = []
+    for loop, els in vloops:
+        binds = []
+        for et in els:
+            b = _view_binds(loop.target, et, {})
+            binds.append({k: x for k, x in b.items() if len(assignments_to(f.node, k)) == 1 and k not in flags})
+        inside = {id(x) for x in ast.walk(loop) if x is not loop}
+        vdesc.append(dict(header=cfg.node(loop), it=cfg.edge_node(loop, "iter"), n=len(els), binds=binds, inside=inside))
+    known = set(flags) | {k for d in vdesc for b in d["binds"] for k in b}
     by_id = {id(s): s for s in cfg.stmt.values()}
     handlers = {n for n, s in cfg.stmt.items() if isinstance(s, ast.ExceptHandler)}
-    start = (ENTRY, tuple([None] * len(fnames)), frozenset(), False)
+    start = (ENTRY, tuple([None] * len(fnames)), frozenset(), False, tuple([None] * len(vdesc)))
     seen = {start}
     stack = [start]
     found = {}
     while stack:
-        node, vals, passed, unk = stack.pop()
+        node, vals, passed, unk, vi = stack.pop()
         assume = {fnames[i]: x for i, x in enumerate(vals) if x is not None}
+        for k, d in enumerate(vdesc):
+            if vi[k] is not None:
+                assume.update(d["binds"][vi[k]])
         for m in cfg.g.successors(node):
             unk2 = unk
             if m in handlers:
@@ -901,7 +1065,7 @@ def _explore(ctx, f, v, marks, targets, recorders):
             if m[0] == "e" and m[2] in ("true", "false"):
                 st = by_id.get(m[1])
                 if st is not None and isinstance(st, (ast.If, ast.While)):
-                    test = _norm_test(st.test, flags)
+                    test = _norm_test(st.test, known)
                     val = tv_eval(test, assume)
                     if val is True and m[2] == "false" or val is False and m[2] == "true":
                         continue
@@ -912,22 +1076,32 @@ def _explore(ctx, f, v, marks, targets, recorders):
                         for a in _atoms(test):
                             if tv_eval(a, assume) is None and {n.id for n in ast.walk(a) if isinstance(n, ast.Name)} & rec:
                                 unk2 = True
+            # the view loops: which element is the loop at after this step?
+            vis = [vi]
+            for k, d in enumerate(vdesc):
+                if m == d["it"]:
+                    lo = -1 if vi[k] is None else vi[k]
+                    vis = [x[:k] + (j,) + x[k + 1:] for x in vis for j in range(lo + 1, d["n"])]
+                elif m == d["header"] and not (node == d["it"] or (len(node) > 1 and node[1] in d["inside"])):
+                    vis = [x[:k] + (None,) + x[k + 1:] for x in vis]  # entered from outside: starts over
             vals2 = vals
             if m in flag_set:
                 i, b = flag_set[m]
                 vals2 = vals[:i] + (b,) + vals[i + 1:]
-            if m in targets:
-                for p in passed:
-                    k = (targets[m], p)
-                    if not unk2:
-                        found[k] = "definite"
-                    else:
-                        found.setdefault(k, "unknown")
-            passed2 = passed | {marks[m]} if m in marks else passed
-            s2 = (m, vals2, passed2, unk2)
-            if s2 not in seen:
-                seen.add(s2)
-                stack.append(s2)
+            for vi2 in vis:
+                if m in targets and _label(targets[m], vi2) is not None:
+                    for p in passed:
+                        k = (_label(targets[m], vi2), p)
+                        if not unk2:
+                            found[k] = "definite"
+                        else:
+                            found.setdefault(k, "unknown")
+                mk = _label(marks[m], vi2) if m in marks else None
+                passed2 = passed | {mk} if mk is not None else passed
+                s2 = (m, vals2, passed2, unk2, vi2)
+                if s2 not in seen:
+                    seen.add(s2)
+                    stack.append(s2)
     return found
 
 
@@ -964,6 +1138,8 @@ def r4_r5(ctx):
         for y in s["yields"]:
             n_yields += 1
             yt = v.term(y.value, y) if y.value is not None else _const(None)
+            if s["view"] is not None:  # what is yielded while the view loop is at this element of the collection
+                yt = _subst(yt, s["view"]["old"], s["view"]["new"])
             if not (yt[0] == "tuple" and len(yt) == 3 and yt[2][0] == "dict"):
                 if yt[0] in ("const", "elem", "param", "global") or (yt[0] == "tuple" and len(yt) != 3):
                     ctx.ob("R4", "AGREE", f, "candidate yield " + tag, False, f"yields {v.show(yt)}, not (config_block, {{xorkey, xorencoded}})", y)
@@ -978,6 +1154,11 @@ def r4_r5(ctx):
             recorded = info["xorkey"] == s["key_t"]
             flag = info["xorencoded"]
             flag_ok = flag == _const(kind == "xorencoded")
+            wrong = [t for t, good in ((yt[1], block_ok), (info["xorkey"], recorded), (flag, flag_ok)) if not good]
+            if wrong and not any(_understood(t) for t in wrong):
+                ctx.undecided("R4", "AGREE", f, "candidate yield " + tag, "yielded block / xorkey / xorencoded flag are computed in a way that is not "
+                              "followed: " + ", ".join(v.show(t) for t in wrong), y)
+                continue
             ctx.ob("R4", "AGREE", f, "candidate yield " + tag, block_ok and recorded and flag_ok,
                    f"yields the found block={block_ok}; recorded xorkey is the searched key={recorded} ({v.show(info['xorkey'])}); "
                    f"file is the {'XorEncoded view' if kind == 'xorencoded' else 'raw file'} and xorencoded={v.show(flag)} -> {flag_ok}", y)
@@ -993,19 +1174,36 @@ def r4_r5(ctx):
     if n_yields + len(retries) > 0:
         ctx.rep.count("extraction_yield_sites", n_yields + len(retries), floor=3)
     # R5: once a candidate has been yielded no later phase may be entered
-    marks, targets, recorders = {}, {}, {}
+    marks, targets, recorders, vloops = {}, {}, {}, []
+
+    def put(table, node, label, vw):
+        """label of a construct of a search site; inside a view loop the label depends on the element the loop is at"""
+        if vw is None:
+            table[node] = label
+            return
+        k = next((i for i, (lp, _els) in enumerate(vloops) if lp is vw["loop"]), None)
+        if k is None:
+            k = len(vloops)
+            vloops.append((vw["loop"], vw["els"]))
+        cur = table.get(node)
+        if not (isinstance(cur, tuple) and cur[0] == k):
+            cur = table[node] = (k, {})
+        cur[1][vw["index"]] = label
+
     for s in S.sites:
+        vw = s["view"]
         for y in s["yields"]:
             n = v.stmt_node(y)
             if n is not None:
-                marks[n] = s["kind"]
-        top = s["outer"] if s["outer"] is not None and any(a is s["outer"] for a in v.fv.ancestors(s["inner"])) else s["inner"]
-        targets_of = {t.id for lp in (top, s["inner"]) for t in ast.walk(lp.target) if isinstance(t, ast.Name)}
+                put(marks, n, s["kind"], vw)
+        nest = [lp for lp in ((vw["loop"] if vw is not None else None), s["outer"]) if lp is not None and any(a is lp for a in v.fv.ancestors(s["inner"]))]
+        top = next((lp for lp in nest if all(lp is o or any(a is lp for a in v.fv.ancestors(o)) for o in nest)), s["inner"])
+        targets_of = {t.id for lp in nest + [s["inner"]] for t in ast.walk(lp.target) if isinstance(t, ast.Name)}
         recorders.setdefault(s["kind"], set()).update(_mutated_names(top) - targets_of)
-        targets[cfg.node(s["inner"])] = "search:" + s["kind"]
+        put(targets, cfg.node(s["inner"]), "search:" + s["kind"], vw)
     for call, st, a in retries:
         targets[cfg.node(st)] = "retry"
-    found = _explore(ctx, f, v, marks, targets, recorders) if marks and targets else {}
+    found = _explore(ctx, f, v, marks, targets, recorders, vloops) if marks and targets else {}
 
     def verdict(target, mark, text, good, bad, node):
         r = found.get((target, mark))
@@ -1025,6 +1223,19 @@ def r4_r5(ctx):
                 "the XorEncoded search can run after a raw candidate was yielded", raw["inner"])
         for e in (s for s in S.sites if s["kind"] == "xorencoded"):
             for r in (s for s in S.sites if s["kind"] == "raw"):
+                ev, rv = e["view"], r["view"]
+                if ev is not None and rv is not None and ev["loop"] is rv["loop"]:
+                    # two elements of one collection of views searched by the same loop: the raw search precedes the
+                    # XorEncoded one iff the raw element can come first, or the loop over the views is started again
+                    # after the raw element was searched (it is nested in another loop, e.g. the one over the keys)
+                    swapped, again = S.may_precede(rv["pos"], ev["pos"]), S.reentered(rv["loop"])
+                    back = swapped or again
+                    why = ("the raw file can come before the XorEncoded view in the collection of searched views" if swapped else
+                           "the loop over the searched views is nested in another loop and runs again after the raw file was searched: "
+                           "the search order is not `every key on the XorEncoded view, then every key on the raw file`")
+                    ctx.ob("R5", "DOM", f, "phase order enc<raw", not back, "XorEncoded view precedes the raw file in the collection of searched views and the loop "
+                           "over the views is not repeated" if not back else "raw search can precede the XorEncoded search: " + why, rv["loop"])
+                    continue
                 back = cfg.reaches(cfg.node(r["inner"]), cfg.node(e["inner"]))
                 ctx.ob("R5", "DOM", f, "phase order enc<raw", not back, "XorEncoded search precedes the raw search" if not back else "raw search can precede the XorEncoded search", r["inner"])
     elif S.sites and not S.unlocated:
@@ -1049,6 +1260,11 @@ def r4_r5(ctx):
         xd_ok = xd in (("param", ps[2]), _const(True))
         kt = v.term(keys_e, call) if keys_e is not None else _const(None)
         kc = v.call_of(kt)
+        # a re-ordered / copied list holds the same keys: look through sorted(..) / list(..) / tuple(..) / reversed(..)
+        while (kc is not None and dotted(kc.func) in ("sorted", "list", "tuple", "reversed") and dotted(kc.func) not in v.locals
+               and len(kc.args) == 1 and not isinstance(kc.args[0], ast.Starred)):
+            kt = v.term(kc.args[0], kc)
+            kc = v.call_of(kt)
         if kc is None or v.callee_fq(kc) != FQ_BYTELIST:
             if kt[0] in ("const", "param", "global", "or"):
                 ctx.ob("R5", "AGREE", f, "all-keys retry keys", False, f"retry keys are {v.show(kt)}, not the left-over single-byte keys", call)
@@ -1347,6 +1563,178 @@ def _attr_stores(ctx, f, v, ret, cons):
                 if not isinstance(x, ast.Starred) and v.term(x, st) == want:
                     escaped = True
     return meta, escaped
+
+
+# ============================================================================ R10
+_ALLOCATORS = {"sorted", "list", "dict", "set", "bytearray", "copy.copy", "copy.deepcopy", "collections.Counter", "collections.OrderedDict",
+               "collections.defaultdict", "collections.deque"}
+_CONTAINER_READS = {"get", "setdefault", "pop", "__getitem__"}
+_PLAIN_DECORATORS = {"staticmethod", "classmethod"}
+
+
+def _memoising(dec) -> bool:
+    """a decorator that makes every call with the same arguments return one stored result object"""
+    d = dotted(dec.func if isinstance(dec, ast.Call) else dec) or ""
+    last = d.split(".")[-1].lower()
+    return "cache" in last or "memo" in last
+
+
+def _combine(rs):
+    """verdicts of the alternatives of a value: one shared alternative is a located shared object"""
+    rs = list(rs)
+    for want in ("shared", "unknown"):
+        for r in rs:
+            if r[0] == want:
+                return r
+    return rs[0] if rs else ("unknown", "no value")
+
+
+def _freshness(ctx, f, e, at, depth=0):
+    """Where does the object denoted by expression e (in function f, at statement `at`) come from?
+    ("fresh", why): allocated during this call on every path (literal, comprehension, sorted()/list()/copy, operator
+    result, or the result of a package function all of whose returns are fresh); ("shared", why): an object that
+    outlives the call - a module-level object or an element of one, the stored result of a memoised function, a mutable
+    default argument, the caller's own object; ("unknown", why) otherwise.  Syntax tree, resolved callees, reaching
+    definitions; nothing is evaluated."""
+    e = strip_cast(e)
+    fn = f.node
+    if depth > 6:
+        return "unknown", "call chain too deep"
+    local = set(params(fn)) | {n.id for n in body_walk(fn) if isinstance(n, ast.Name) and isinstance(n.ctx, ast.Store)}
+    mod = f.module
+    if isinstance(e, ast.NamedExpr):
+        return _freshness(ctx, f, e.value, at, depth)
+    if isinstance(e, (ast.List, ast.ListComp, ast.Dict, ast.DictComp, ast.Set, ast.SetComp, ast.BinOp, ast.Constant, ast.JoinedStr, ast.Tuple)):
+        return "fresh", "built by this call: " + src(e)[:50]
+    if isinstance(e, ast.IfExp):
+        return _combine([_freshness(ctx, f, x, at, depth) for x in (e.body, e.orelse)])
+    if isinstance(e, ast.BoolOp):
+        return _combine([_freshness(ctx, f, x, at, depth) for x in e.values])
+    if isinstance(e, ast.Subscript):
+        if isinstance(e.slice, ast.Slice):
+            return "fresh", "a slice copy"
+        r = _freshness(ctx, f, e.value, at, depth)
+        return ("shared", "element of " + r[1]) if r[0] == "shared" else ("unknown", "element of a container: " + src(e)[:50])
+    if isinstance(e, ast.Name):
+        if e.id not in local:
+            if e.id in mod.consts:
+                return "shared", f"module-level object {e.id}"
+            return "unknown", f"global {e.id}"
+        rd = reaching_defs(ctx, f, e.id, at)
+        if not rd:
+            return "unknown", f"no definition of {e.id} reaches the use"
+        out = []
+        for st, val in rd:
+            if st is fn:
+                dflt = param_defaults(fn).get(e.id)
+                if dflt is not None and not isinstance(dflt, (ast.Constant, ast.Tuple)):
+                    out.append(("shared", f"default-argument object of parameter {e.id} (created once, kept across calls)"))
+                elif depth == 0:
+                    out.append(("shared", f"the caller's own object (parameter {e.id})"))
+                else:
+                    out.append(("unknown", f"parameter {e.id} of {f.fq}"))
+            elif val is None:
+                out.append(("unknown", f"{e.id} is bound by unpacking / a loop / a with statement"))
+            else:
+                out.append(_freshness(ctx, f, val, st, depth))
+        return _combine(out)
+    if isinstance(e, ast.Attribute):
+        d = dotted(e)
+        if d is not None and d.split(".")[0] not in local:
+            return "shared", f"module/class-level object {d}"
+        return "unknown", "attribute " + src(e)[:50]
+    if isinstance(e, ast.Call):
+        d = dotted(e.func)
+        if d in _ALLOCATORS and d.split(".")[0] not in local:
+            return "fresh", f"{d}(...) allocates a new object"
+        if isinstance(e.func, ast.Attribute) and e.func.attr == "copy" and not e.args:
+            return "fresh", "a copy"
+        if isinstance(e.func, ast.Attribute) and e.func.attr in _CONTAINER_READS:
+            r = _freshness(ctx, f, e.func.value, at, depth)
+            return ("shared", "element of " + r[1]) if r[0] == "shared" else ("unknown", "element of a container: " + src(e)[:50])
+        cal = ctx.rs.resolve_call(f, e)
+        if cal.kind == "func" and cal.func is not None:
+            g = cal.func
+            decs = list(getattr(g.node, "decorator_list", []))
+            if any(_memoising(x) for x in decs):
+                return "shared", f"result of {g.fq}(), which is memoised ({', '.join(src(x) for x in decs)}): every call with equal arguments returns the one stored object"
+            if any((dotted(x) or "") not in _PLAIN_DECORATORS for x in decs):
+                return "unknown", f"{g.fq} is wrapped by a decorator"
+            if any(isinstance(n, (ast.Yield, ast.YieldFrom)) for n in body_walk(g.node)):
+                return "unknown", f"{g.fq} is a generator"
+            rets = [r for r in statements(g.node) if isinstance(r, ast.Return) and r.value is not None]
+            if not rets:
+                return "unknown", f"{g.fq} returns nothing"
+            r = _combine([_freshness(ctx, g, x.value, x, depth + 1) for x in rets])
+            return r[0], f"{g.fq}() returns " + r[1]
+        return "unknown", "result of " + src(e.func)[:50] + "(...)"
+    return "unknown", src(e)[:50]
+
+
+def r10(ctx):
+    """Key priority is a function of the keys asked for and of the payload at hand: a key list that is changed in place
+    (re-ordered by byte frequency, extended, trimmed) must be an object private to the call - allocated by it or by a
+    callee that returns a new object every time.  If the object is shared (module-level table, the caller's list, the
+    stored result of a memoised function, a default argument), the order left by the previous payload is what the next
+    extraction starts from."""
+    f = ctx.repo.func(FQ_BLOCKS)
+    if len(params(f.node)) < 2:
+        ctx.undecided("R10", "ALIAS", f, "key list changed in place is private to the call", "iter_beacon_config_blocks no longer takes (file, keys, ..)", f.node)
+        return
+    S = _Sites(ctx, f)
+    v = S.v
+    # the key lists, by role: what the key loops iterate, what the retry hands on, what make_byte_list gets
+    roles = []
+    for s in S.sites:
+        if s["outer"] is not None:
+            roles.append((s["outer"].iter, s["outer"]))
+    for call in S.retries:
+        a = v.args(call)
+        if a and len(a) >= 2 and list(a.values())[1] is not None:
+            roles.append((list(a.values())[1], call))
+    for call in v.calls(FQ_BYTELIST):
+        a = v.args(call) or {}
+        ex = next(iter(a.values()), None)
+        if ex is not None:
+            roles.append((ex, call))
+    key_alts = []
+    for e, at in roles:
+        for t in _alts(v.term(e, at)):
+            parts = list(t[1:]) if t[0] in ("or", "and") else [t]
+            key_alts.extend(x for x in parts if x not in key_alts)
+    if not roles:
+        ctx.undecided("R10", "ALIAS", f, "key list changed in place is private to the call", "no key list located (no key loop, no retry)", f.node)
+        return
+    # in-place modifications whose receiver is one of those objects
+    sites = []
+    for n in body_walk(f.node):
+        recv = None
+        if isinstance(n, ast.Call) and isinstance(n.func, ast.Attribute) and n.func.attr in _MUTATORS:
+            recv = n.func.value
+        elif isinstance(n, ast.Subscript) and isinstance(n.ctx, (ast.Store, ast.Del)):
+            recv = n.value
+        elif isinstance(n, ast.AugAssign) and isinstance(n.target, ast.Name):
+            recv = n.target
+        if recv is None or not isinstance(recv, ast.Name):
+            continue
+        st = v.fv.stmt_of(n)
+        if st is None or not v.cfg.has(st):
+            continue
+        rt = v.term(ast.Name(id=recv.id, ctx=ast.Load()), st)
+        if any(a in key_alts for a in _alts(rt)) or any(x in key_alts for a in _alts(rt) if a[0] in ("or", "and") for x in a[1:]):
+            sites.append((n, st, recv))
+    text = "key list changed in place is private to the call"
+    if not sites:
+        ctx.ob("R10", "ALIAS", f, text, True, "no key list is modified in place in the block iterator", f.node, nontrivial=False)
+        return
+    for n, st, recv in sites:
+        verdict, why = _freshness(ctx, f, ast.Name(id=recv.id, ctx=ast.Load()), st)
+        what = f"`{src(n)[:60]}` changes a key list in place; that list is "
+        if verdict == "unknown":
+            ctx.undecided("R10", "ALIAS", f, text, what + "of an origin this rule does not follow: " + why, n)
+        else:
+            ctx.ob("R10", "ALIAS", f, text, verdict == "fresh", what + (why if verdict == "fresh" else "NOT private to this extraction: " + why +
+                   " - the order left behind by an earlier payload decides the key priority of the next one"), n)
 
 
 # ============================================================================ R8
